@@ -81,6 +81,8 @@ package expressions
 // The probe: a stage that made no lookup on the counting context is taken to yield the same
 // string for every context. (This is the premise the purity rule and the per-helper contracts
 // support; here it is the stated meaning of ok, assumed where the result is used.)
+//@ func EvalStaticStage
+//@   pure
 //@   ensures [assumed-constant] ok ==> app(stage, any_ctx) == ret
 // a literal stage yields its text: proved for the closure body (stageLiteral$1); that app() of
 // the returned closure value is what its body returns is the meaning of app (assumed)
@@ -107,7 +109,5 @@ package expressions
 //@   loop 1 invariant opt_out(ret) + sb_content(addrof(sb)) == opt_in(ret)
 //@ func (*CompiledKeyBuilder).joinStages
 //@   modifies world except KeyBuilder
-//@ func EvalStaticStage
-//@   pure
 //@ func (*CompilerErrors).add
 //@   modifies world except KeyBuilder
